@@ -151,7 +151,10 @@ class Listener(threading.Thread):
         tls: (kind, issuer) | None          TLS on the accepted socket itself (origin cert, or the https proxy's cert)
         connect_reply: 200|403|407|502|"garbage"|"eof"
         inner: (kind, issuer)               certificate of the origin played inside a CONNECT tunnel
+        inner_for: f(connect_target)        ... or chosen from the CONNECT target
         close_after: n                      close the (inner) connection after n requests (None = keep alive)
+        silent_close: bool                  when closing, do not announce it with Connection: close
+        redirect_map: {suffix: location}    answer a request whose target ends with suffix (absolute-form at the proxy, origin-form inside a tunnel) with a 302
     """
 
     def __init__(self, certs: Certs, script: typing.Callable[[int], dict[str, typing.Any]]):
@@ -166,6 +169,7 @@ class Listener(threading.Thread):
         self.log: list[dict[str, typing.Any]] = []
         self.lock = threading.Lock()
         self.stop = False
+        self.idle_timeout = 3.0
         self.handlers: list[threading.Thread] = []
 
     def run(self) -> None:
@@ -195,11 +199,11 @@ class Listener(threading.Thread):
     # -- one connection --------------------------------------------------------------------------
     def _handle(self, c: socket.socket, e: dict[str, typing.Any]) -> None:
         try:
-            c.settimeout(3.0)
+            c.settimeout(self.idle_timeout)
             cfg = self.script(e["conn"])
-            e["cfg"] = {k: v for k, v in cfg.items()}
+            e["cfg"] = {k: v for k, v in cfg.items() if not callable(v)}
             stream: typing.Any = c
-            e.update({"outer_tls": bool(cfg.get("tls")), "outer_handshake": None, "outer_sni": None, "proxy_messages": [], "connect": None, "inner_handshake": None, "inner_sni": None, "origin_bytes": 0, "origin_requests": [], "origin_raw": b"", "proxy_bytes": 0})
+            e.update({"outer_tls": bool(cfg.get("tls")), "outer_handshake": None, "outer_sni": None, "proxy_messages": [], "connect": None, "inner_handshake": None, "inner_sni": None, "origin_bytes": 0, "origin_requests": [], "origin_raw": b"", "proxy_bytes": 0, "proxy_raw": b""})
             if cfg.get("tls"):
                 ctx = self._ctx_with_sni(cfg["tls"], e, "outer_sni")
                 b = BioTLS(c, ctx, e)
@@ -217,7 +221,12 @@ class Listener(threading.Thread):
                 if not data:
                     return
                 e["proxy_bytes"] += len(data)
+                e["proxy_raw"] += data
                 buf += data
+                if not (65 <= buf[0] <= 90):
+                    # not an HTTP method (e.g. a TLS ClientHello sent to a plain proxy)
+                    e["proxy_messages"].append({"error": "not an HTTP request", "raw": buf[:64]})
+                    return
                 try:
                     r = wire.parse_request(buf)
                 except wire.WireError as err:
@@ -240,8 +249,9 @@ class Listener(threading.Thread):
                         return
                     stream.sendall(b"HTTP/1.1 200 Connection established\r\n\r\n")
                     inner_stream = stream
-                    if cfg.get("inner"):
-                        ctx = self._ctx_with_sni(cfg["inner"], e, "inner_sni")
+                    inner_leaf = cfg["inner_for"](e["connect"]) if cfg.get("inner_for") else cfg.get("inner")
+                    if inner_leaf:
+                        ctx = self._ctx_with_sni(inner_leaf, e, "inner_sni")
                         ib = BioTLS(stream, ctx, e)
                         if buf:
                             ib.inc.write(buf)
@@ -254,8 +264,17 @@ class Listener(threading.Thread):
                     return
                 # forwarded (absolute-form) request: answer as the origin would
                 body = ("forwarded:" + req.target.decode("latin-1")).encode()
-                stream.sendall(wire.build_response(200, body=body))
                 e.setdefault("forwarded", []).append(req.target.decode("latin-1"))
+                closing = cfg.get("close_after") is not None and len(e["forwarded"]) >= cfg["close_after"]
+                loc = redirect_for(cfg, req.target.decode("latin-1"))
+                if loc:
+                    stream.sendall(wire.build_response(302, "Found", headers=[("Location", loc)], body=b"", keepalive=not closing or bool(cfg.get("silent_close"))))
+                else:
+                    stream.sendall(wire.build_response(200, body=body, keepalive=not closing or bool(cfg.get("silent_close"))))
+                if closing:
+                    return
+        except (socket.timeout, TimeoutError):
+            e["idle_timeout"] = True
         except Exception as err:  # noqa: BLE001
             e["handler_error"] = repr(err)
         finally:
@@ -300,9 +319,20 @@ class Listener(threading.Thread):
             e["origin_requests"].append({"method": req.method.decode("latin-1"), "target": req.target.decode("latin-1"), "headers": [(k.decode("latin-1"), v.decode("latin-1")) for k, v in req.headers]})
             served += 1
             closing = cfg.get("close_after") is not None and served >= cfg["close_after"]
-            stream.sendall(wire.build_response(200, body=("origin:" + req.target.decode("latin-1")).encode(), keepalive=not closing))
+            loc = redirect_for(cfg, req.target.decode("latin-1"))
+            if loc:
+                stream.sendall(wire.build_response(302, "Found", headers=[("Location", loc)], body=b"", keepalive=not closing or bool(cfg.get("silent_close"))))
+            else:
+                stream.sendall(wire.build_response(200, body=("origin:" + req.target.decode("latin-1")).encode(), keepalive=not closing or bool(cfg.get("silent_close"))))
             if closing:
                 return
+
+
+def redirect_for(cfg: dict[str, typing.Any], target: str) -> str | None:
+    for suffix, loc in (cfg.get("redirect_map") or {}).items():
+        if target.endswith(suffix):
+            return typing.cast(str, loc)
+    return None
 
 
 def wire_incomplete(buf: bytes) -> bool:
